@@ -12,13 +12,14 @@
 (* Graph semantics come from Graph.tla, the step functions from SchedOps    *)
 (* (the same operators the trace specification checks the code against).   *)
 (***************************************************************************)
-EXTENDS SchedOps
+EXTENDS SchedOps, SequencesExt
 
 CONSTANTS W,          \* the workflow (see Graph.tla)
           Scripts,    \* [task -> set of job scripts], a script = Seq(message)
           SubmitFail, \* set of tasks whose job submission may fail
           Faults,     \* [dup |-> Nat, reorder |-> BOOLEAN, crash |-> Nat]  fault budget
-          StopAt      \* stop point requested at start-up, or NoPoint
+          StopAt,     \* stop point requested at start-up, or NoPoint
+          CmdBudget   \* how many operator commands (hold / release / hold point / stop point) a behaviour may contain
 
 VARIABLES pool,     \* [id -> [st, rh, queued, held, outs, sat, sub, efail, sfail]]  the n=0 window
           rhl,      \* cached runahead limit (NoPoint before the first computation)
@@ -34,21 +35,32 @@ VARIABLES pool,     \* [id -> [st, rh, queued, held, outs, sat, sub, efail, sfai
           done,     \* history: completed outputs <<task, point, output>>
           ran,      \* history: set of [id, sub, ready, held, seqclash]  one per job preparation
           futseen,  \* [task -> largest future-trigger offset seen so far for that task definition]
-          maxfut    \* TaskPool.max_future_offset: cached largest future offset among the pooled task definitions
-vars == <<pool, rhl, rhbase, q, cmds, jobs, net, acks, stopped, fb, db, done, ran, futseen, maxfut>>
+          maxfut,   \* TaskPool.max_future_offset: cached largest future offset among the pooled task definitions
+          tohold,   \* TaskPool.tasks_to_hold: ids (pooled or future) that are / are to be held
+          holdpt,   \* TaskPool.hold_point, or NoPoint
+          stopcmd,  \* stop point set by command at run time, or NoPoint
+          cb        \* remaining command budget
+ctl == <<holdpt, stopcmd, cb>>
+vars == <<pool, rhl, rhbase, q, cmds, jobs, net, acks, stopped, fb, db, done, ran, futseen, maxfut, tohold, holdpt, stopcmd, cb>>
 
 Name(id) == id[1]
 Pt(id) == id[2]
 Ids == W.tasks \X AllPoints(W)
-StopPt == IF StopAt = NoPoint THEN W.fcp ELSE StopAt
+StopPt == IF stopcmd # NoPoint THEN stopcmd ELSE IF StopAt = NoPoint THEN W.fcp ELSE StopAt
 QNames == {"default"} \cup {W.queues[i].name : i \in DOMAIN W.queues}
 Active(r) == r.st \in ActiveStatuses
 Final(r) == r.st \in FinalStatuses
 
 -----------------------------------------------------------------------------
 (* ------------------------------ spawning -------------------------------- *)
+(* a new proxy is held if its id was put on hold earlier or it lies beyond the hold point (spawn_task) *)
+HeldAtSpawn(id) == id \in tohold \/ (holdpt # NoPoint /\ Pt(id) > holdpt)
+(* hold_active_task also records the id in tasks_to_hold *)
+(* and TaskPool.remove releases the hold of a task that leaves the pool               *)
+HoldAfter == (tohold \cup {i \in DOMAIN pool' \ DOMAIN pool : holdpt # NoPoint /\ Pt(i) > holdpt})
+             \ (DOMAIN pool \ DOMAIN pool')
 NewTask(id) ==
-  [st |-> "waiting", rh |-> TRUE, queued |-> FALSE, held |-> FALSE, outs |-> {},
+  [st |-> "waiting", rh |-> TRUE, queued |-> FALSE, held |-> HeldAtSpawn(id), outs |-> {},
    sat |-> InitSatKeys(W, Name(id), Pt(id)), sub |-> 0, efail |-> 0, sfail |-> 0]
 
 (* TaskPool.spawn_task: not beyond bounds, not if it already ran (history),  *)
@@ -144,6 +156,7 @@ ComputeRunahead ==
      IN /\ (rhl = NoPoint \/ (base # rhbase /\ ~(rhl = StopPt /\ base > rhbase)))
         /\ rhl' = lim /\ rhbase' = base
   /\ UNCHANGED <<pool, q, cmds, jobs, net, acks, stopped, fb, db, done, ran, futseen, maxfut>>
+  /\ UNCHANGED <<tohold, holdpt, stopcmd, cb>>
 
 (* TaskPool.release_runahead_tasks: everything at or below the cached limit; *)
 (* each released task spawns its next parentless instance.                  *)
@@ -162,6 +175,7 @@ ReleaseRunahead ==
               /\ futseen' = fs
               /\ \E r \in RhAfter(pool, ReleaseAll(pool, ids), ReleaseAll(pool, ids), rhl, rhbase, maxfut, fs) : rhl' = r.l /\ rhbase' = r.b /\ maxfut' = r.m
   /\ UNCHANGED <<q, cmds, jobs, net, acks, stopped, fb, db, done, ran>>
+  /\ tohold' = HoldAfter /\ UNCHANGED ctl
 
 -----------------------------------------------------------------------------
 (* ------------------------------- queues --------------------------------- *)
@@ -175,6 +189,7 @@ QueueIfReady(id) ==
   /\ pool' = [pool EXCEPT ![id].queued = TRUE]
   /\ q' = [q EXCEPT ![QueueOf(W, Name(id))] = Append(@, id)]
   /\ UNCHANGED <<rhl, rhbase, cmds, jobs, net, acks, stopped, fb, db, done, ran, futseen, maxfut>>
+  /\ UNCHANGED <<tohold, holdpt, stopcmd, cb>>
 
 NActive(qn) == Cardinality({i \in DOMAIN pool : QueueOf(W, Name(i)) = qn /\ Active(pool[i])})
 HeldIds == {i \in DOMAIN pool : pool[i].held}
@@ -198,8 +213,10 @@ ReleaseQueue(qn) ==
         /\ ran' = ran \cup {[id |-> i, sub |-> pool[i].sub + 1,
                                ready |-> ReadyByGraph(W, Name(i), Pt(i), done),
                                held |-> pool[i].held,
+                               beyond |-> Pt(i) > StopPt, retry |-> pool[i].sub > 0,
                                seqclash |-> \E j \in DOMAIN pool : j # i /\ Name(j) = Name(i) /\ Active(pool[j])] : i \in ids}
   /\ UNCHANGED <<rhl, rhbase, jobs, net, acks, stopped, fb, db, done, futseen, maxfut>>
+  /\ UNCHANGED <<tohold, holdpt, stopcmd, cb>>
 
 (* Scheduler.release_tasks_to_run: one call releases from every queue (the    *)
 (* queues are independent: a task belongs to exactly one), i.e. the          *)
@@ -217,8 +234,10 @@ ReleaseQueues ==
         /\ ran' = ran \cup {[id |-> i, sub |-> pool[i].sub + 1,
                                ready |-> ReadyByGraph(W, Name(i), Pt(i), done),
                                held |-> pool[i].held,
+                               beyond |-> Pt(i) > StopPt, retry |-> pool[i].sub > 0,
                                seqclash |-> \E j \in DOMAIN pool : j # i /\ Name(j) = Name(i) /\ Active(pool[j])] : i \in ids}
   /\ UNCHANGED <<rhl, rhbase, jobs, net, acks, stopped, fb, db, done, futseen, maxfut>>
+  /\ UNCHANGED <<tohold, holdpt, stopcmd, cb>>
 
 -----------------------------------------------------------------------------
 (* --------------------------- environment: jobs -------------------------- *)
@@ -233,6 +252,7 @@ EnvLaunch(c) ==
         /\ acks' = acks \cup {<<c[1], c[2], FALSE>>}
         /\ UNCHANGED <<jobs, net>>
   /\ UNCHANGED <<pool, rhl, rhbase, q, stopped, fb, db, done, ran, futseen, maxfut>>
+  /\ UNCHANGED <<tohold, holdpt, stopcmd, cb>>
 
 (* a job runs one step of its script and sends the message *)
 EnvJobStep(j) ==
@@ -240,6 +260,7 @@ EnvJobStep(j) ==
   /\ jobs' = [jobs EXCEPT ![j].pos = @ + 1]
   /\ net' = [net EXCEPT ![j] = Append(@, jobs[j].script[jobs[j].pos + 1])]
   /\ UNCHANGED <<pool, rhl, rhbase, q, cmds, acks, stopped, fb, db, done, ran, futseen, maxfut>>
+  /\ UNCHANGED <<tohold, holdpt, stopcmd, cb>>
 
 -----------------------------------------------------------------------------
 (* --------------------------- message processing ------------------------- *)
@@ -268,6 +289,7 @@ SubmitCallback(a) ==
              /\ \E fs \in FutChoices : futseen' = fs /\ \E r \in res.rh[fs] : rhl' = r.l /\ rhbase' = r.b /\ maxfut' = r.m
      ELSE UNCHANGED <<pool, done, rhl, rhbase, futseen, maxfut>>
   /\ UNCHANGED <<q, cmds, jobs, net, stopped, fb, db, ran>>
+  /\ tohold' = HoldAfter /\ UNCHANGED ctl
 
 (* a job message is delivered and processed (per-job FIFO unless reordering is on) *)
 Deliver(j, k, dup) ==
@@ -281,6 +303,7 @@ Deliver(j, k, dup) ==
              /\ \E fs \in FutChoices : futseen' = fs /\ \E r \in res.rh[fs] : rhl' = r.l /\ rhbase' = r.b /\ maxfut' = r.m
      ELSE UNCHANGED <<pool, done, rhl, rhbase, futseen, maxfut>>          \* task no longer in the pool: job record only
   /\ UNCHANGED <<q, cmds, jobs, acks, stopped, db, ran>>
+  /\ tohold' = HoldAfter /\ UNCHANGED ctl
 
 (* reliable, in-order, immediate delivery (no message network): the job's next message is processed at once *)
 JobStepDirect(j) ==
@@ -292,6 +315,78 @@ JobStepDirect(j) ==
              /\ \E fs \in FutChoices : futseen' = fs /\ \E r \in res.rh[fs] : rhl' = r.l /\ rhbase' = r.b /\ maxfut' = r.m
      ELSE UNCHANGED <<pool, done, rhl, rhbase, futseen, maxfut>>
   /\ UNCHANGED <<q, cmds, net, acks, stopped, fb, db, ran>>
+  /\ tohold' = HoldAfter /\ UNCHANGED ctl
+
+-----------------------------------------------------------------------------
+(* --------------------------- operator commands -------------------------- *)
+(* Commands are executed between main-loop steps (process_command_queue);    *)
+(* a behaviour contains at most CmdBudget of them.                           *)
+ValidIds == {i \in Ids : ValidPoint(W, Name(i), Pt(i)) /\ InBounds(W, Pt(i))}
+CmdRest == <<rhl, rhbase, cmds, jobs, net, acks, stopped, fb, db, done, ran, futseen, maxfut>>
+
+(* cylc hold <id>: TaskPool.hold_tasks -> hold_active_task / tasks_to_hold *)
+CmdHold(i) ==
+  /\ stopped = "no" /\ cb > 0 /\ i \in ValidIds
+  /\ pool' = [x \in DOMAIN pool |-> IF x = i THEN [pool[x] EXCEPT !.held = TRUE] ELSE pool[x]]
+  /\ tohold' = tohold \cup {i}
+  /\ cb' = cb - 1
+  /\ UNCHANGED <<q, holdpt, stopcmd>> /\ UNCHANGED CmdRest
+
+(* release_held_active_task: un-hold; a released task that is ready to run is queued at once *)
+(* a task waiting for a retry is ready only once its retry delay has passed (the model has no clock) *)
+RetryPending(pl, i) == pl[i].st = "waiting" /\ (pl[i].efail > 0 \/ pl[i].sfail > 0)
+ReadyIn(pl, i) == pl[i].st = "waiting" /\ ~pl[i].rh /\ ~pl[i].held /\ PrereqsOK(W, Name(i), Pt(i), pl[i].sat)
+(* cylc release <id> (only ids on the hold list match) *)
+CmdRelease(i) ==
+  /\ stopped = "no" /\ cb > 0 /\ i \in tohold
+  /\ LET pl1 == [x \in DOMAIN pool |-> IF x = i THEN [pool[x] EXCEPT !.held = FALSE] ELSE pool[x]]
+         toq == i \in DOMAIN pool /\ pool[i].held /\ ReadyIn(pl1, i) /\ ~pl1[i].queued
+     IN \E doq \in (IF toq THEN (IF RetryPending(pool, i) THEN BOOLEAN ELSE {TRUE}) ELSE {FALSE}) :
+        /\ pool' = IF doq THEN [pl1 EXCEPT ![i].queued = TRUE] ELSE pl1
+        /\ q' = IF doq THEN [q EXCEPT ![QueueOf(W, Name(i))] = Append(@, i)] ELSE q
+  /\ tohold' = tohold \ {i}
+  /\ cb' = cb - 1
+  /\ UNCHANGED <<holdpt, stopcmd>> /\ UNCHANGED CmdRest
+
+(* cylc hold --after=<point>: TaskPool.set_hold_point *)
+CmdHoldPoint(p) ==
+  /\ stopped = "no" /\ cb > 0 /\ p \in W.icp..W.fcp
+  /\ LET beyond == {i \in DOMAIN pool : Pt(i) > p}
+     IN /\ pool' = [x \in DOMAIN pool |-> IF x \in beyond THEN [pool[x] EXCEPT !.held = TRUE] ELSE pool[x]]
+        /\ tohold' = tohold \cup beyond
+  /\ holdpt' = p
+  /\ cb' = cb - 1
+  /\ UNCHANGED <<q, stopcmd>> /\ UNCHANGED CmdRest
+
+(* cylc release --all: TaskPool.release_hold_point (every pooled task is released; the ready ones are queued in *)
+(* the order get_tasks() yields them, which the model leaves open)                                              *)
+CmdReleaseHoldPoint ==
+  /\ stopped = "no" /\ cb > 0
+  /\ LET pl1 == [x \in DOMAIN pool |-> [pool[x] EXCEPT !.held = FALSE]]
+         cand == {i \in DOMAIN pool : pool[i].held /\ ReadyIn(pl1, i) /\ ~pl1[i].queued}
+         must == {i \in cand : ~RetryPending(pool, i)}
+     IN \E may \in SUBSET (cand \ must) :
+        LET toq == must \cup may IN
+        /\ pool' = [x \in DOMAIN pool |-> IF x \in toq THEN [pl1[x] EXCEPT !.queued = TRUE] ELSE pl1[x]]
+        /\ \E order \in SetToSeqs(toq) :
+              q' = [qn \in QNames |-> q[qn] \o SelectSeq(order, LAMBDA i : QueueOf(W, Name(i)) = qn)]
+  /\ tohold' = {} /\ holdpt' = NoPoint
+  /\ cb' = cb - 1
+  /\ UNCHANGED stopcmd /\ UNCHANGED CmdRest
+
+(* cylc stop <point>: TaskPool.set_stop_point.  If the cached limit lies beyond the new stop point it is pulled *)
+(* back and waiting tasks beyond the stop point return to the runahead pool (and leave their queue).            *)
+CmdStopPoint(p) ==
+  /\ stopped = "no" /\ cb > 0 /\ p \in W.icp..W.fcp /\ p # StopPt
+  /\ stopcmd' = p
+  /\ IF rhl # NoPoint /\ rhl > p
+     THEN LET back == {i \in DOMAIN pool : Pt(i) > p /\ pool[i].st = "waiting"}
+          IN /\ rhl' = p
+             /\ pool' = [x \in DOMAIN pool |-> IF x \in back THEN [pool[x] EXCEPT !.rh = TRUE, !.queued = FALSE] ELSE pool[x]]
+             /\ q' = [qn \in QNames |-> SelectSeq(q[qn], LAMBDA i : i \notin back)]
+     ELSE UNCHANGED <<rhl, pool, q>>
+  /\ cb' = cb - 1
+  /\ UNCHANGED <<rhbase, cmds, jobs, net, acks, stopped, fb, db, done, ran, futseen, maxfut, tohold, holdpt>>
 
 -----------------------------------------------------------------------------
 (* ------------------------- shutdown and stall --------------------------- *)
@@ -308,6 +403,7 @@ AutoShutdown ==
   /\ ~ENABLED ReleaseRunahead /\ ~ENABLED ComputeRunahead
   /\ stopped' = "auto"
   /\ UNCHANGED <<pool, rhl, rhbase, q, cmds, jobs, net, acks, fb, db, done, ran, futseen, maxfut>>
+  /\ UNCHANGED <<tohold, holdpt, stopcmd, cb>>
 
 (* TaskPool.is_stalled *)
 Stall ==
@@ -318,6 +414,7 @@ Stall ==
   /\ Quiet
   /\ stopped' = "stalled"
   /\ UNCHANGED <<pool, rhl, rhbase, q, cmds, jobs, net, acks, fb, db, done, ran, futseen, maxfut>>
+  /\ UNCHANGED <<tohold, holdpt, stopcmd, cb>>
 
 -----------------------------------------------------------------------------
 RECURSIVE LoadFirst(_, _)
@@ -328,6 +425,7 @@ LoadFirst(pl, ts) ==
        IN LoadFirst(IF p # NoPoint /\ InBounds(W, p) THEN Add(pl, <<t, p>>) ELSE pl, ts \ {t})
 
 Init ==
+  /\ tohold = {} /\ holdpt = NoPoint /\ stopcmd = NoPoint /\ cb = CmdBudget
   /\ rhl = NoPoint /\ rhbase = NoPoint
   /\ q = [n \in QNames |-> <<>>]
   /\ cmds = {} /\ jobs = <<>> /\ net = <<>> /\ acks = {}
@@ -352,6 +450,10 @@ Next ==
   \/ \E j \in DOMAIN net : \E k \in DOMAIN net[j] : \E dup \in BOOLEAN : Deliver(j, k, dup)
   \/ AutoShutdown
   \/ Stall
+  \/ \E i \in ValidIds : CmdHold(i)
+  \/ \E i \in tohold : CmdRelease(i)
+  \/ \E p \in W.icp..W.fcp : CmdHoldPoint(p) \/ CmdStopPoint(p)
+  \/ CmdReleaseHoldPoint
 
 Fairness == WF_vars(Next)
 Spec == Init /\ [][Next]_vars
@@ -407,7 +509,17 @@ C05_QueuedInOwnQueue == \A qn \in QNames : \A k \in DOMAIN q[qn] : QueueOf(W, Na
 
 (* C07: bounds *)
 C07_PoolWithinBounds == \A i \in DOMAIN pool : InBounds(W, Pt(i)) /\ ValidPoint(W, Name(i), Pt(i))
-C07_NoSubmitBeyondStop == \A k \in ran : Pt(k.id) <= StopPt
+(* (judged against the stop point in force when the job was prepared; the retry of a task that was already     *)
+(*  active when the stop point took effect is the known finding C07/C43 ..._RetryOfActiveTask, kept apart)     *)
+C07_NoSubmitBeyondStop == \A k \in ran : k.beyond => k.retry
+C07_NoSubmitBeyondStop_RetryOfActiveTask == \A k \in ran : ~(k.beyond /\ k.retry)
+
+(* C06: holds *)
+C06_HeldNeverPrepared == \A k \in ran : ~k.held
+C06_HoldListMatchesFlags ==
+  \A i \in DOMAIN pool : pool[i].held <=> (i \in tohold)
+C06_BeyondHoldPointHeld ==
+  holdpt # NoPoint => \A i \in DOMAIN pool : (Pt(i) > holdpt /\ i \in tohold) => pool[i].held
 
 (* C09: implied outputs, lifecycle (as an action property) *)
 C09_ImpliedOutputs ==
